@@ -208,6 +208,27 @@ theorem connect_ring_shortest_arc (ls : List Loc) (L : Int) (hne : ls ≠ []) (h
   ⟨_, connect_ring_closed ls L hne hL (fun l hl => (hin l hl).ringIn),
     connect_ring_len_shortestArc ls L hne hL hin⟩
 
+/-- the two clauses for ALL `RingIn` inputs when the inputs are read as *spans* (`spanOf L l`, what
+    `_reduce_parts_to_location` makes of `l`: `[start, end)` for a location that does not bridge the
+    origin — a gene covers its introns —, `[x, L) + [0, y)` for an origin-spanning one; the same
+    `(lo, hi)` pairs as the driver's `spanParts`, over which the check evaluates `shortestArc`) -/
+theorem connect_ring_shortest_spans (ls : List Loc) (L : Int) (hne : ls ≠ []) (hL : 0 < L)
+    (hin : ∀ l ∈ ls, RingIn L l) (c : Loc) (hwf : areaWF L L c = true) (hlen : 2 * c.len < L)
+    (hcov : ∀ l ∈ ls, ∀ i, (spanOf L l).mem i = true → c.mem i = true) :
+    ∃ r, connect ls (some L) = .ok r ∧ r.len ≤ c.len ∧ ∀ i, r.mem i = true → c.mem i = true := by
+  refine ⟨_, connect_ring_closed ls L hne hL hin, ?_⟩
+  apply connR_shortest _ L hL (by simpa using hne) (toR_ok L hL ls hin) c hwf hlen
+  intro r hr i hi
+  obtain ⟨l, hl, rfl⟩ := List.mem_map.1 hr
+  exact hcov l hl i hi
+
+theorem connect_ring_shortest_arc_spans (ls : List Loc) (L : Int) (hne : ls ≠ []) (hL : 0 < L)
+    (hin : ∀ l ∈ ls, RingIn L l) :
+    ∃ r, connect ls (some L) = .ok r ∧
+      (2 * shortestArc L (canon (ls.flatMap fun l => (spanOf L l).parts)) < L →
+        r.len = shortestArc L (canon (ls.flatMap fun l => (spanOf L l).parts))) :=
+  ⟨_, connect_ring_closed ls L hne hL hin, connect_ring_len_shortestArc_spans ls L hne hL hin⟩
+
 /-- the two-exon reverse-strand location `[90, 100)(−), [0, 10)(−)` (exons in descending order, so
     not origin-spanning for `location_bridges_origin`) is connected to its line hull, the whole
     record, although the 20-base span over the origin covers its bases -/
@@ -382,6 +403,9 @@ example : RingIn 100 (.compound [⟨2, 8, .fwd⟩, ⟨12, 18, .fwd⟩]) :=
     rcases hp with rfl | rfl <;> decide⟩
 example : connect [.compound [⟨2, 8, .fwd⟩, ⟨12, 18, .fwd⟩], .simple ⟨80, 90, .rev⟩, areaTwo 95 1 100 .fwd] (some 100)
     = .ok (.compound [⟨80, 100, .fwd⟩, ⟨0, 18, .fwd⟩]) := by rfl
+/-- the span reading of a gene with an intron and of an origin-spanning input -/
+example : spanOf 100 (.compound [⟨2, 8, .fwd⟩, ⟨12, 18, .fwd⟩]) = .simple ⟨2, 18, .fwd⟩ ∧
+    spanOf 100 (areaTwoRev 95 1 100) = .compound [⟨95, 100, .fwd⟩, ⟨0, 1, .fwd⟩] := ⟨by rfl, by rfl⟩
 /-- extension of an origin-spanning span: both ends move, the result stays a two-part span -/
 example : extendLocation (areaTwo 90 10 100 .fwd) 15 100 true = .ok (.compound [⟨75, 100, .fwd⟩, ⟨0, 25, .fwd⟩]) := by rfl
 /-- … and the whole-record branch -/
